@@ -8,17 +8,18 @@
 (*                                                                         *)
 (* 1. Routing observations  a.op \in {"search", "xhash", "simple"}.  The   *)
 (*    index r comes from outside (the W-bit algorithm model in ShardAlg,   *)
-(*    the real remap package in traces); RouteOK(a, r) is the CONTRACT:    *)
+(*    the real remap package in traces); RouteOK(a, r) is the CONTRACT,    *)
+(*    exactly what the property states and nothing more:                   *)
 (*      - r \in [0, n)                          (usable as a slice index)  *)
-(*      - the same key asked again gets the same index            (stable) *)
-(*      - modulo route (integer keys / HitGroup through SimpleIndex):      *)
-(*        a non-negative key k gets k mod n.  For negative keys the        *)
-(*        property only asks for range and stability, so does the spec.    *)
-(*      - hash route: the observations (hash, index) made so far are       *)
-(*        ordered alike - they fit a partition of the hash space into n    *)
-(*        consecutive intervals; one hash never shows two indices.         *)
-(*    The exact position of the boundaries is left open (the property      *)
-(*    does not fix it).                                                    *)
+(*      - keyed routes (SimpleIndex, XHashIndex): the same key asked again *)
+(*        gets the same index                            (deterministic)   *)
+(*      - the hash partition (SearchIndex): the observations (hash, index) *)
+(*        made so far are ordered alike - they fit a partition of the hash *)
+(*        space into n consecutive intervals; one hash never shows two     *)
+(*        indices.                                                         *)
+(*    Left open on purpose: where the boundaries lie, which in-range shard *)
+(*    a key is sent to (so a refactoring that re-distributes keys is not   *)
+(*    flagged as long as it stays total, in range and stable).             *)
 (*                                                                         *)
 (* 2. Map calls  a.op \in {"set", "get", "exist", "del", "delr"} on        *)
 (*    m    the unsharded structure (a plain map) - this is what traces of  *)
@@ -51,22 +52,17 @@ allvars == <<vars, last>>
 
 (* ------------------------------ routing -------------------------------- *)
 RouteOps == {"search", "xhash", "simple"}
-ModTypes == {"u8", "i8", "i16", "u16", "i32", "u32", "i64", "u64", "int", "uint", "hit"}
-
-(* SimpleIndex on an integer / HitGroup key: modulo route *)
-ByMod(a) == a.op = "simple" /\ a.k.t \in ModTypes
 RId(a)   == [op |-> a.op, k |-> a.k]
 
 RouteOK(a, r) ==
   /\ InRange(n, r)
-  /\ RId(a) \in DOMAIN kidx => kidx[RId(a)] = r
-  /\ IF ByMod(a)
-     THEN ~a.neg => r = LimbsMod(a.k.b, LimbBase, n)
-     ELSE HashOKSeq(obs, a.h, r)
+  /\ IF a.op = "search"
+     THEN HashOKSeq(obs, a.h, r)
+     ELSE RId(a) \in DOMAIN kidx => kidx[RId(a)] = r
 
 RouteDo(a, r) ==
-  /\ obs'  = IF ByMod(a) THEN obs ELSE InsertObs(obs, a.h, r)
-  /\ kidx' = Ext(kidx, RId(a), r)
+  /\ obs'  = IF a.op = "search" THEN InsertObs(obs, a.h, r) ELSE obs
+  /\ kidx' = IF a.op = "search" THEN kidx ELSE Ext(kidx, RId(a), r)
   /\ UNCHANGED <<n, m, sh, rt>>
   /\ last' = a
 
@@ -165,19 +161,13 @@ View == vars
 (* every answer so far": never weaker (Explainable), never stronger         *)
 (* (Complete) - so trace validation neither misses a hole / overlap nor     *)
 (* flags a router with different boundaries.                                *)
-CONSTANTS HashVals,   \* hash values 0..LimbBase^2-1 used as questions
-          IntKeys,    \* non-negative integer keys for the modulo route
-          NegKeys     \* magnitudes of negative integer keys (cfg files take no negative numbers)
+CONSTANTS HashVals,   \* hash values in 0..LimbBase^2-1 asked through the partition
+          RKeys       \* keys asked through the keyed routes
 
 L2(v) == <<v \div LimbBase, v % LimbBase>>                  \* 2 limbs
-Pat(v) == IF v < 0 THEN v + LimbBase * LimbBase ELSE v      \* two's complement pattern
-SearchA(v)   == [op |-> "search", k |-> [t |-> "hash", b |-> L2(v)], neg |-> FALSE, h |-> L2(v)]
-(* three string keys, two of which share a hash value *)
-XKeys == {1, 2, 3}
-XHashOf(k) == k \div 2 + 1
-XhashA(k)    == [op |-> "xhash", k |-> [t |-> "str", b |-> <<k>>], neg |-> FALSE, h |-> L2(XHashOf(k))]
-ModA(v)      == [op |-> "simple", k |-> [t |-> "i64", b |-> L2(Pat(v))], neg |-> v < 0, h |-> L2(Pat(v))]
-RouteActs == {SearchA(v) : v \in HashVals} \cup {XhashA(k) : k \in XKeys} \cup {ModA(v) : v \in IntKeys} \cup {ModA(-v) : v \in NegKeys}
+SearchA(v)  == [op |-> "search", k |-> [t |-> "hash", b |-> L2(v)], h |-> L2(v)]
+KeyA(op, k) == [op |-> op, k |-> [t |-> "str", b |-> <<k>>], h |-> L2(0)]
+RouteActs == {SearchA(v) : v \in HashVals} \cup {KeyA(op, k) : op \in {"xhash", "simple"}, k \in RKeys}
 Answers   == (-1)..n          \* includes both kinds of out-of-range index
 
 RNext == \E a \in RouteActs, r \in Answers : RouteStep(a, r)
@@ -195,22 +185,20 @@ ObsSorted == \A j \in 1..(Len(obs) - 1) : LimbCmp(obs[j].h, obs[j + 1].h) = -1
 Explainable == \E c \in Cuts : Explains(c, SeqRange(obs))
 (* whatever some partition could still answer is accepted *)
 Complete ==
-  \A a \in RouteActs : ~ByMod(a) =>
-    \A r \in 0..(n - 1) :
-      ( /\ RId(a) \in DOMAIN kidx => kidx[RId(a)] = r
-        /\ \E c \in Cuts : Explains(c, SeqRange(obs) \cup {[h |-> a.h, i |-> r]}) )
-      => RouteOK(a, r)
+  LET C == Cuts
+      O == SeqRange(obs)
+  IN \A v \in HashVals : \A r \in 0..(n - 1) :
+       (\E c \in C : Explains(c, O \cup {[h |-> L2(v), i |-> r]})) => RouteOK(SearchA(v), r)
 (* the neighbour test equals the pairwise reference formulation *)
 FastIsRef ==
-  \A a \in RouteActs, r \in Answers :
-    HashOKSeq(obs, a.h, r) = HashOK(SeqRange(obs), a.h, r)
-(* what the memory holds: usable indices; k mod n for non-negative integers; *)
-(* keys with one hash share one shard                                       *)
-MemoryOK ==
-  /\ \A id \in DOMAIN kidx : InRange(n, kidx[id])
-  /\ \A v \in IntKeys : (v >= 0 /\ RId(ModA(v)) \in DOMAIN kidx) => kidx[RId(ModA(v))] = v % n
-  /\ \A k1, k2 \in XKeys :
-       (XHashOf(k1) = XHashOf(k2) /\ RId(XhashA(k1)) \in DOMAIN kidx /\ RId(XhashA(k2)) \in DOMAIN kidx)
-         => kidx[RId(XhashA(k1))] = kidx[RId(XhashA(k2))]
+  \A v \in HashVals, r \in Answers :
+    HashOKSeq(obs, L2(v), r) = HashOK(SeqRange(obs), L2(v), r)
+(* keyed routes: only usable indices are ever remembered, any in-range     *)
+(* first answer is accepted, and an answer once given stays                *)
+MemoryOK == \A id \in DOMAIN kidx : InRange(n, kidx[id])
+FirstFree ==
+  \A op \in {"xhash", "simple"}, k \in RKeys :
+    RId(KeyA(op, k)) \notin DOMAIN kidx => \A r \in 0..(n - 1) : RouteOK(KeyA(op, k), r)
+Sticky == [][\A id \in DOMAIN kidx : id \in DOMAIN kidx' /\ kidx'[id] = kidx[id]]_allvars
 RView == <<n, obs, kidx>>
 =============================================================================
